@@ -220,6 +220,10 @@ def compare(col, case, node, t, env, ref, one_model, whole_text):
         col.count("unsat")
         return
     r, m = equiv.check(col, ref.div.nonzero() + [got != want])
+    if r == "unknown":   # a 10 s timeout on a loaded machine is not an answer: ask once more, with more time
+        col.queries["unknown"] -= 1
+        col.bump("queries_repeated_after_timeout")
+        r, m = equiv.check(col, ref.div.nonzero() + [got != want], timeout_ms=90000)
     if r == "sat":
         pt = equiv.point_from_model(m, [got, want])
         conf = None
@@ -624,15 +628,16 @@ def main():
     work_items = []
     items = [(k, t, mode) for k, t in ts for mode in BASE_MODES]
     work_items += [("exprs", "eq", b) for b in chunks(items, BATCH)]
-    # spacing variants: every tree in the thorough tier, a stride through the enumeration otherwise
-    sp = ts if thorough else ts[::7]
+    # spacing variants: a stride through the enumeration (prime to the 18 / 13 operand kinds, so every
+    # operator pair is reached with varying operands)
+    sp = ts[::5] if thorough else ts[::7]
     items = [(k, t, mode) for k, t in sp for mode in ("tight", "wide")]
     items += [(k, t, mode) for k, t in xs for mode in ("min", "redundant", "tight") + (("full", "wide") if thorough else ())]
     items += [(k, t, "elseif") for k, t in ts + xs if " else if " in exprgen.pr(t, "min")]
     work_items += [("exprs", "eq", b) for b in chunks(items, BATCH)]
     # the same expressions in other syntactic positions
     for n, place in enumerate(PLACES):
-        sel = (ts if thorough else ts[n::23]) + xs[n::1 if thorough else 5]
+        sel = ts[n::11 if thorough else 23] + xs[n::1 if thorough else 5]
         items = [(k, t, "min") for k, t in sel if place != "ifcond" or k == "B"]
         work_items += [("exprs", place, b) for b in chunks(items, BATCH)]
     work_items += [("mixes", g) for g in chunks(literal_mixes(args.tier), 12)]
@@ -665,11 +670,11 @@ def main():
     cov["bounds"] = ("expression trees of depth <= 2 over + - * / ^ and element-wise forms, unary +/-, six relations, not/and/or, if-then-else, sin/max "
                      "(thorough: depth 3 on representatives), three parenthesisations; plus signed powers in 15 contexts, 14 number-literal forms and both Boolean "
                      "literals as operands, atan2/min/abs/nested calls, elseif chains (both spellings); spacing variants (no blanks / blanks, newlines and "
-                     "comments between all tokens) on every 7th tree (thorough: all); the expression as initial-equation rhs, equation lhs, algorithm rhs, "
-                     "declaration binding, start modification and if-equation condition on a stride of the trees (thorough: all); range expressions "
+                     "comments between all tokens) on every 7th tree (thorough: 5th), the added trees without blanks (thorough: also wide and fully parenthesised); the expression as initial-equation rhs, equation lhs, algorithm rhs, "
+                     "declaration binding, start modification and if-equation condition, each on every 23rd tree (thorough: 11th); range expressions "
                      "start:stop / start:step:stop whose parts are expressions, as for-index, subscript and rhs; every text also has its literal leaves compared "
                      "by type and exact value; literal mixes: ordered pairs and full sequences of 0/1/2/0.0/1.0/1e0/2.0/true/false in one source text, "
-                     "also at declaration sites, in a second class and after the equation section; 56+35 number texts alone and all in one text; plain and "
+                     "also at declaration sites, in a second class and after the equation section; 21+35 number texts alone and all in one text; plain and "
                      "escaped strings (11 escape sequences x 9 positions) as rhs, binding and call argument; variable values unbounded reals")
     rep.assumptions += ["the text -> parse tree step is executed, not encoded", "pow and sin are uninterpreted; divisors non-zero; Booleans as 0/1 with and=product, or=sum",
                         "for strings with escape sequences outside the three `string-escape:` cases the raw text between the delimiters is accepted besides the exact value "
